@@ -184,7 +184,9 @@ fn gen_chaotic(r: &mut Rng, rs: &mut Rng, n_sources: usize, src_lens: &[usize]) 
             1 | 2 | 3 => gen_extra_valid(r, 200),
             4 => {
                 // reserved id
-                let mut v = r.pickc(&[0x0007u16, 0x5455, 0x9901, 0x000a, 5]).to_le_bytes().to_vec();
+                // any of the reserved header IDs (the whole table, and the low range), not a favourite few
+                let id = if r.chance(1, 4) { r.below(32) as u16 } else { crate::model::RESERVED_IDS[r.usize_below(crate::model::RESERVED_IDS.len())] };
+                let mut v = id.to_le_bytes().to_vec();
                 v.extend_from_slice(&2u16.to_le_bytes());
                 v.extend_from_slice(&[1, 2]);
                 v
@@ -557,7 +559,7 @@ impl Scenario for Roundtrip {
                                     0 => v.extend_from_slice(&[0xef, 0xbe, 9, 0, 1, 2]),
                                     1 => v.extend_from_slice(&[1, 0, 8, 0, 0, 0, 0, 0, 0, 0, 0, 0]),
                                     2 => {
-                                        v.extend_from_slice(&r.pickc(&[0x0007u16, 0x5455, 0x9901, 0x000a, 5, 0x7875]).to_le_bytes());
+                                        v.extend_from_slice(&(if r.chance(1, 4) { r.below(32) as u16 } else { crate::model::RESERVED_IDS[r.usize_below(crate::model::RESERVED_IDS.len())] }).to_le_bytes());
                                         v.extend_from_slice(&[2, 0, 1, 2]);
                                     }
                                     _ => v.push(0xef),
